@@ -67,8 +67,8 @@ type VF struct {
 	Group  bool
 }
 
-func vVoid() *V                 { return &V{K: kVoid} }
-func vBool(b bool) *V           { return &V{K: kBool, B: b} }
+func vVoid() *V                  { return &V{K: kVoid} }
+func vBool(b bool) *V            { return &V{K: kBool, B: b} }
 func vInt(bits uint, v int64) *V { return &V{K: kInt, Bits: bits, I: v} }
 func vUint(bits uint, v uint64) *V {
 	return &V{K: kUint, Bits: bits, U: v}
@@ -81,7 +81,7 @@ func vEnum(v uint16, name string) *V {
 	return &V{K: kEnum, U: uint64(v), EnumName: name}
 }
 func vCap(c *capnp.Client) *V { return &V{K: kCap, Client: c} }
-func vAny(p capnp.Ptr) *V      { return &V{K: kAny, Ptr: p} }
+func vAny(p capnp.Ptr) *V     { return &V{K: kAny, Ptr: p} }
 
 func vList(elem kind, null bool, n int, f func(i int) *V) *V {
 	v := &V{K: kList, Elem: elem, Null: null}
